@@ -15,7 +15,7 @@ def run(ctx):
     ctx.assumptions += ["S-hash: PYTHONHASHSEED influences this code only through the iteration order of sets in gsm.Expression, i.e. the order of each DFA state's transition list and DFA state numbering; numbering is not observable by Pattern",
                         "nondeterminism inside Pygments is out of scope", "S-fs for the traversal harness"]
     ctx.outside += ["real PYTHONHASHSEED values / OS directory orders (covered through their modelled effect only)", "soups longer than N", "threads"]
-    T = 240 if ctx.quick() else 1200
+    T = 240 if ctx.quick() else 600
     jobs = []
     N = 2 if ctx.quick() else 3
     for lang in (("Python", "JavaScript", "Java", "C") if ctx.quick() else capture.LANG_NAMES):
@@ -46,7 +46,7 @@ def run(ctx):
     ctx.bounds["hash seed at scan_file level"] = "every single-edit mutant of arrow / throws / plain programs: outcome under identity vs reversed vs rotated transition order of every DFA state"
     for n in ((2,) if ctx.quick() else (2, 3)):
         for e1 in range(7):
-            jobs.append(Job("c06.py", "h_analyze_history", {"which": "history", "fix_n": n, "fix_e1": e1}, T * (1 if n == 2 else 4), 60, tag=f"file-level isolation, history of {n} files, first ext #{e1}", meta={"sigtag": "file-isolation", "twin": e1 == 0}))
+            jobs.append(Job("c06.py", "h_analyze_history", {"which": "history", "fix_n": n, "fix_e1": e1}, T * (1 if n == 2 else 2), 60, tag=f"file-level isolation, history of {n} files, first ext #{e1}", meta={"sigtag": "file-isolation", "twin": e1 == 0}))
     ctx.bounds["file-level isolation"] = "Scanner._analyze_file on a file after every history of 1 (quick) / <= 2 (thorough) earlier files drawn from 7 extensions x 4 texts (same bytes under another language included) equals its stand-alone analysis"
     for c in ((0, 2) if ctx.quick() else (0, 1, 2, 3)):
         for f3 in ((0, 2) if ctx.quick() else (0, 2, 5, 7)):
